@@ -347,6 +347,39 @@ def check_sink(ctx, prog):
     bom_before = [e for e in fn_exprs(rd) if e.get('k') == 'int' and const_val(e) in (0xef, 0xbb, 0xbf) and e.get('l', 0) < lp['l']]
     ctx.check(not bom_in_loop and len(bom_before) >= 3, 'C05.sink', rd['pq'], 'read:BOM probed once, before the chunk loop', fwhere(rd, bom_in_loop[0]['l'] if bom_in_loop else None), 'EF BB BF tested before the loop only',
               'the byte-order-mark test runs inside the chunk loop: a U+FEFF character that starts exactly at a chunk boundary inside a string is dropped')
+    # the probe rewinds exactly when it did not find a complete BOM: the guard of seek(0) is evaluated for every probe result
+    probe_if = [s_ for s_ in ir.walk_stmts(rd['body']) if s_.get('k') == 'if' and s_.get('l', 0) < lp['l'] and any(e.get('k') == 'call' and (e.get('pq') or '').endswith('::seek') and const_val(e['a'][0]) == 0 for e in ir.stmt_exprs(s_['then']))]
+    role = 'read:probe rewinds unless a complete BOM was read'
+    if len(probe_if) != 1:
+        ctx.undecided('C05.sink', rd['pq'], role, fwhere(rd), 'no single `if (...) seek(0)` before the chunk loop')
+    else:
+        cond = probe_if[0]['c']
+
+        class Ev(bytesets.Evaluator):
+            def __init__(self, r, bom):
+                bytesets.Evaluator.__init__(self, prog, rd)
+                self.r, self.bom = r, bom
+
+            def ev(self, e):
+                if e is not None and e.get('k') == 'call' and (e.get('pq') or '').endswith('::read') and len(e.get('a', [])) == 2:
+                    return self.r
+                if e is not None and e.get('k') == 'idx' and const_val(e['i']) is not None and strip(e['b']).get('k') == 'var':
+                    return self.bom[const_val(e['i'])]
+                return bytesets.Evaluator.ev(self, e)
+        bad = []
+        try:
+            for r in range(0, 4):
+                for bom in ((0xef, 0xbb, 0xbf), (0xef, 0xbb, 0x00), (0x7b, 0x22, 0x61), (0x37, 0x00, 0x00)):
+                    rewinds = bool(Ev(r, bom).ev(cond))
+                    want = not (r == 3 and bom == (0xef, 0xbb, 0xbf))
+                    ctx.evaluations += 1
+                    if rewinds != want:
+                        bad.append((r, bom, rewinds))
+            ctx.check(not bad, 'C05.sink', rd['pq'], role, fwhere(rd, probe_if[0]['l']), 'seek(0) iff not (3 bytes read and they are EF BB BF)',
+                      'after probing for a BOM the reader %s when the probe read %d byte(s) %s: %s' % ('rewinds' if bad and bad[0][2] else 'does not rewind', bad[0][0] if bad else 0, ' '.join('%02x' % b for b in (bad[0][1] if bad else ())),
+                                                                                               'the start of the document is skipped' if bad and not bad[0][2] else 'the BOM is parsed as text'))
+        except bytesets.Undecidable as ex:
+            ctx.undecided('C05.sink', rd['pq'], role, fwhere(rd, probe_if[0]['l']), 'probe condition not evaluable: %s' % ex)
     term = [e for e in ir.stmt_exprs(lp['body']) if e.get('k') == 'bin' and e.get('op') == '=' and const_val(e['y']) == 0 and strip_lv(e['x']).get('k') in ('call', 'idx')]
     seq = [e for e in ir.stmt_exprs(lp['body']) if e in term or (e.get('k') == 'call' and e.get('pq') == 'asl::XdlParser::parse')]
     ctx.check(bool(term) and seq and seq[0] in term, 'C05.sink', rd['pq'], 'read:each chunk NUL-terminated before parsing', fwhere(rd), 'buffer[n] = 0 precedes parse()', 'a chunk is parsed without first being terminated at the number of bytes read')
